@@ -676,6 +676,8 @@ impl IdlSqliteTransaction for IdlSqliteWriteTransaction {
     }
 
     fn get_conn(&self) -> Result<&Connection, OperationError> {
+        #[cfg(feature = "verif-hooks")]
+        crate::verif::storage_point("stmt")?;
         self.conn
             .as_ref()
             .ok_or(OperationError::TransactionAlreadyCommitted)
@@ -725,6 +727,8 @@ impl IdlSqliteWriteTransaction {
         let mut dropping = None;
         std::mem::swap(&mut dropping, &mut self.conn);
 
+        #[cfg(feature = "verif-hooks")]
+        crate::verif::storage_point("commit")?;
         if let Some(conn) = dropping {
             conn.execute("COMMIT TRANSACTION", [])
                 .map(|_| ())
@@ -732,6 +736,8 @@ impl IdlSqliteWriteTransaction {
                     admin_error!(?e, "CRITICAL: failed to commit sqlite txn");
                     OperationError::BackendEngine
                 })?;
+            #[cfg(feature = "verif-hooks")]
+            let _ = crate::verif::storage_point("committed");
 
             self.pool
                 .lock()
